@@ -77,70 +77,70 @@ pub type RInnerSeq<const S: usize> = RSeq2<RSk, S, RAbs<0, 1>, RAbs<1, 2>>;
 
 harnesses! {
     // ---- sequences
-    #[kani::unwind(8)] fn c03_abs_seq2() [T0 S] : "Q|Seq2<push,pop> without skip: parse==check==reference; abstract children, 3 positions, initial depth 0" {
+    #[kani::unwind(5)] fn c03_abs_seq2() [T0 S] : "Q|Seq2<push,pop> without skip: parse==check==reference; abstract children, 3 positions, initial depth 0" {
         abs3::<Seq2<Nk<Abs<0, 1>>, Nk<Abs<1, 2>>>, RSeq2<RSk, 0, RAbs<0, 1>, RAbs<1, 2>>>(FREE, 0) }
-    #[kani::unwind(8)] fn c03_abs_seq3_skip() [T0 S] : "Q|Seq3 with abstract skip between elements (push, pure, pop)" {
+    #[kani::unwind(5)] fn c03_abs_seq3_skip() [T0 S] : "Q|Seq3 with abstract skip between elements (push, pure, pop)" {
         abs3::<Seq3<Sk<Abs<0, 1>>, Sk<Abs<1, 0>>, Sk<Abs<2, 2>>>, RSeq3<RSk, 1, RAbs<0, 1>, RAbs<1, 0>, RAbs<2, 2>>>(FREE, 0) }
-    #[kani::unwind(8)] fn c03_abs_seq4_skip() [T0 S] : "Q|Seq4 with skip" {
+    #[kani::unwind(5)] fn c03_abs_seq4_skip() [T0 S] : "Q|Seq4 with skip" {
         abs3::<Seq4<Sk<Abs<0, 0>>, Sk<Abs<1, 1>>, Sk<Abs<2, 3>>, Sk<Abs<0, 2>>>, RSeq4<RSk, 1, RAbs<0, 0>, RAbs<1, 1>, RAbs<2, 3>, RAbs<0, 2>>>(FREE, 1) }
-    #[kani::unwind(8)] fn c03_abs_seq5_skip() [T0 S] : "Q|Seq5 with skip" {
+    #[kani::unwind(5)] fn c03_abs_seq5_skip() [T0 S] : "Q|Seq5 with skip" {
         abs3::<Seq5<Sk<Abs<0, 0>>, Sk<Abs<1, 1>>, Sk<Abs<2, 0>>, Sk<Abs<0, 2>>, Sk<Abs<1, 0>>>, RSeq5<RSk, 1, RAbs<0, 0>, RAbs<1, 1>, RAbs<2, 0>, RAbs<0, 2>, RAbs<1, 0>>>(FREE, 0) }
     // ---- choices
-    #[kani::unwind(8)] fn c03_abs_choice2() [T0 S] : "Q|Choice2<push,pop>, initial depth 1" {
+    #[kani::unwind(5)] fn c03_abs_choice2() [T0 S] : "Q|Choice2<push,pop>, initial depth 1" {
         abs3::<Choice2<Abs<0, 1>, Abs<1, 2>>, RChoice2<RAbs<0, 1>, RAbs<1, 2>>>(FREE, 1) }
-    #[kani::unwind(8)] fn c03_abs_choice3() [T0 S] : "Q|Choice3<push,pop,pure>, initial depth 1" {
+    #[kani::unwind(5)] fn c03_abs_choice3() [T0 S] : "Q|Choice3<push,pop,pure>, initial depth 1" {
         abs3::<Choice3<Abs<0, 1>, Abs<1, 2>, Abs<2, 0>>, RChoice3<RAbs<0, 1>, RAbs<1, 2>, RAbs<2, 0>>>(FREE, 1) }
-    #[kani::unwind(8)] fn c03_abs_choice4() [T0 S] : "Q|Choice4 incl. a depth-reading alternative, initial depth 2" {
+    #[kani::unwind(5)] fn c03_abs_choice4() [T0 S] : "Q|Choice4 incl. a depth-reading alternative, initial depth 2" {
         abs3::<Choice4<Abs<0, 2>, Abs<1, 3>, Abs<2, 1>, Abs<0, 0>>, RChoice4<RAbs<0, 2>, RAbs<1, 3>, RAbs<2, 1>, RAbs<0, 0>>>(FREE, 2) }
     // ---- option, array, pair
-    #[kani::unwind(8)] fn c03_abs_option() [T0 S] : "Q|Option<Seq2<pop,pure>>: a failed body restores the popped entry" {
+    #[kani::unwind(5)] fn c03_abs_option() [T0 S] : "Q|Option<Seq2<pop,pure>>: a failed body restores the popped entry" {
         abs3nf::<Option<Seq2<Nk<Abs<0, 2>>, Nk<Abs<1, 0>>>>, ROpt<RSeq2<RSk, 0, RAbs<0, 2>, RAbs<1, 0>>>>(FREE, 1) }
-    #[kani::unwind(8)] fn c03_abs_array2() [T0 S] : "Q|[T;2] of a pushing child" {
+    #[kani::unwind(5)] fn c03_abs_array2() [T0 S] : "Q|[T;2] of a pushing child" {
         abs3::<[Abs<0, 1>; 2], RArr<RAbs<0, 1>, 2>>(FREE, 0) }
-    #[kani::unwind(8)] fn c03_abs_pair() [T0 S] : "Q|(T1,T2)" {
+    #[kani::unwind(5)] fn c03_abs_pair() [T0 S] : "Q|(T1,T2)" {
         abs3::<(Abs<0, 1>, Abs<1, 2>), RPair<RAbs<0, 1>, RAbs<1, 2>>>(FREE, 0) }
     // ---- repetitions
-    #[kani::unwind(8)] fn c03_abs_rep0_skip() [T0 S] : "Q|RepMin<push,skip,MIN=0> (e*): skip before iterations > 0, given back on failure" {
+    #[kani::unwind(5)] fn c03_abs_rep0_skip() [T0 S] : "Q|RepMin<push,skip,MIN=0> (e*): skip before iterations > 0, given back on failure" {
         abs3nf::<RepMin<Abs<0, 1>, AbsSkip<3>, 1, 0>, RRep<RSk, 1, RAbs<0, 1>, 0, { usize::MAX }>>(PROG, 0) }
-    #[kani::unwind(8)] fn c03_abs_rep1_skip() [T0 S] : "Q|RepMin<_,skip,MIN=1> (e+)" {
+    #[kani::unwind(5)] fn c03_abs_rep1_skip() [T0 S] : "Q|RepMin<_,skip,MIN=1> (e+)" {
         abs3::<RepMin<Abs<0, 3>, AbsSkip<3>, 1, 1>, RRep<RSk, 1, RAbs<0, 3>, 1, { usize::MAX }>>(PROG, 1) }
-    #[kani::unwind(8)] fn c03_abs_rep2_noskip() [T0 S] : "Q|RepMin<_,MIN=2> without skip, body = Seq2<pop,push>" {
+    #[kani::unwind(5)] fn c03_abs_rep2_noskip() [T0 S] : "Q|RepMin<_,MIN=2> without skip, body = Seq2<pop,push>" {
         abs3::<RepMin<Seq2<Nk<Abs<0, 2>>, Nk<Abs<1, 1>>>, AbsSkip<3>, 0, 2>, RRep<RSk, 0, RSeq2<RSk, 0, RAbs<0, 2>, RAbs<1, 1>>, 2, { usize::MAX }>>(PROG1, 1) }
-    #[kani::unwind(8)] fn c03_abs_repminmax12() [T0 S] : "Q|RepMinMax<_,1,2> with skip" {
+    #[kani::unwind(5)] fn c03_abs_repminmax12() [T0 S] : "Q|RepMinMax<_,1,2> with skip" {
         abs3::<RepMinMax<Abs<0, 1>, AbsSkip<3>, 1, 1, 2>, RRep<RSk, 1, RAbs<0, 1>, 1, 2>>(PROG, 0) }
-    #[kani::unwind(8)] fn c03_abs_repexact2() [T0 S] : "Q|RepExact<_,2> with skip" {
+    #[kani::unwind(5)] fn c03_abs_repexact2() [T0 S] : "Q|RepExact<_,2> with skip" {
         abs3::<RepExact<Abs<0, 1>, AbsSkip<3>, 1, 2>, RRep<RSk, 1, RAbs<0, 1>, 2, 2>>(FREE, 0) }
-    #[kani::unwind(8)] fn c03_abs_atomic_repeat() [T0 S] : "Q|AtomicRepeat<Choice2<push,pop>> (the skip node itself)" {
+    #[kani::unwind(5)] fn c03_abs_atomic_repeat() [T0 S] : "Q|AtomicRepeat<Choice2<push,pop>> (the skip node itself)" {
         abs3nf::<AtomicRepeat<Choice2<Abs<0, 1>, Abs<1, 2>>>, RRep<REmpty, 0, RChoice2<RAbs<0, 1>, RAbs<1, 2>>, 0, { usize::MAX }>>(PROG, 1) }
     // ---- predicates, push
-    #[kani::unwind(8)] fn c03_abs_positive() [T0 S] : "Q|Positive<Seq2<push,pop>>: stack restored even on success" {
+    #[kani::unwind(5)] fn c03_abs_positive() [T0 S] : "Q|Positive<Seq2<push,pop>>: stack restored even on success" {
         abs3z::<Positive<Seq2<Nk<Abs<0, 1>>, Nk<Abs<1, 2>>>>, RPos<RSeq2<RSk, 0, RAbs<0, 1>, RAbs<1, 2>>>>(FREE, 1) }
-    #[kani::unwind(8)] fn c03_abs_negative() [T0 S] : "Q|Negative<Seq2<pop,pure>>" {
+    #[kani::unwind(5)] fn c03_abs_negative() [T0 S] : "Q|Negative<Seq2<pop,pure>>" {
         abs3z::<Negative<Seq2<Nk<Abs<0, 2>>, Nk<Abs<1, 0>>>>, RNeg<RSeq2<RSk, 0, RAbs<0, 2>, RAbs<1, 0>>>>(FREE, 1) }
-    #[kani::unwind(8)] fn c03_abs_push() [T0 S] : "Q|Push<Seq2 with skip>" {
+    #[kani::unwind(5)] fn c03_abs_push() [T0 S] : "Q|Push<Seq2 with skip>" {
         abs3::<Push<Seq2<Sk<Abs<0, 0>>, Sk<Abs<1, 0>>>>, RPush<RSeq2<RSk, 1, RAbs<0, 0>, RAbs<1, 0>>>>(FREE, 0) }
     // ---- nests
-    #[kani::unwind(8)] fn c03_abs_nest1() [T0 S] : "Q|Seq2<push, Choice2<Seq2<Option<pop>, pure>, pop>> (the shape of the pest clear_snapshot divergence; on the model stack)" {
+    #[kani::unwind(5)] fn c03_abs_nest1() [T0 S] : "Q|Seq2<push, Choice2<Seq2<Option<pop>, pure>, pop>> (the shape of the pest clear_snapshot divergence; on the model stack)" {
         abs3::<Seq2<Nk<Abs<0, 1>>, Nk<Choice2<Seq2<Nk<Option<Abs<1, 2>>>, Nk<Abs<2, 0>>>, Abs<1, 2>>>>,
                RSeq2<RSk, 0, RAbs<0, 1>, RChoice2<RSeq2<RSk, 0, ROpt<RAbs<1, 2>>, RAbs<2, 0>>, RAbs<1, 2>>>>(FREE, 0) }
-    #[kani::unwind(8)] fn c03_abs_nest2() [T0 S] : "Q|Rep<Choice2<Seq2<push,pure>, Negative<pop>>> with skip" {
+    #[kani::unwind(5)] fn c03_abs_nest2() [T0 S] : "Q|Rep<Choice2<Seq2<push,pure>, Negative<pop>>> with skip" {
         abs3nf::<RepMin<Choice2<Seq2<Sk<Abs<0, 1>>, Sk<Abs<1, 0>>>, Seq2<Sk<Negative<Abs<2, 2>>>, Sk<Abs<1, 0>>>>, AbsSkip<3>, 1, 0>,
                  RRep<RSk, 1, RChoice2<RSeq2<RSk, 1, RAbs<0, 1>, RAbs<1, 0>>, RSeq2<RSk, 1, RNeg<RAbs<2, 2>>, RAbs<1, 0>>>, 0, { usize::MAX }>>(PROG, 0) }
     // ---- the five rule macros + EOI around an abstract inner
-    #[kani::unwind(8)] fn c03_rule_normal() [T0 S] : "Q|normal_rule! (INHERITED=1) around Seq2<push,pop>" {
+    #[kani::unwind(5)] fn c03_rule_normal() [T0 S] : "Q|normal_rule! (INHERITED=1) around Seq2<push,pop>" {
         abs3::<rules::normal<'_, 1>, RInnerSeq<1>>(FREE, 0) }
-    #[kani::unwind(8)] fn c03_rule_normal_inh0() [T0 S] : "Q|normal_rule! with INHERITED=0 (called from an atomic context): no skip" {
+    #[kani::unwind(5)] fn c03_rule_normal_inh0() [T0 S] : "Q|normal_rule! with INHERITED=0 (called from an atomic context): no skip" {
         abs3::<rules::normal<'_, 0>, RInnerSeq<0>>(FREE, 0) }
-    #[kani::unwind(8)] fn c03_rule_normal_boxed() [T0 S] : "Q|normal_rule!, boxed content" {
+    #[kani::unwind(5)] fn c03_rule_normal_boxed() [T0 S] : "Q|normal_rule!, boxed content" {
         abs3::<rules::normal_boxed<'_, 1>, RInnerSeq<1>>(FREE, 0) }
-    #[kani::unwind(8)] fn c03_rule_silent() [T0 S] : "Q|silent_rule!" {
+    #[kani::unwind(5)] fn c03_rule_silent() [T0 S] : "Q|silent_rule!" {
         abs3::<rules::silent<'_, 1>, RInnerSeq<1>>(FREE, 0) }
-    #[kani::unwind(8)] fn c03_rule_atomic() [T0 S] : "Q|atomic_rule!: parse goes through the check path of the content" {
+    #[kani::unwind(5)] fn c03_rule_atomic() [T0 S] : "Q|atomic_rule!: parse goes through the check path of the content" {
         abs3::<rules::atomic<'_, 1>, RInnerSeq<0>>(FREE, 0) }
-    #[kani::unwind(8)] fn c03_rule_compound() [T0 S] : "Q|compound_atomic_rule!" {
+    #[kani::unwind(5)] fn c03_rule_compound() [T0 S] : "Q|compound_atomic_rule!" {
         abs3::<rules::compound<'_, 1>, RInnerSeq<0>>(FREE, 0) }
-    #[kani::unwind(8)] fn c03_rule_non_atomic() [T0 S] : "Q|non_atomic_rule! under INHERITED=0: skipping switched back on" {
+    #[kani::unwind(5)] fn c03_rule_non_atomic() [T0 S] : "Q|non_atomic_rule! under INHERITED=0: skipping switched back on" {
         abs3::<rules::non_atomic<'_, 0>, RInnerSeq<1>>(FREE, 0) }
-    #[kani::unwind(8)] fn c03_rule_eoi() [T0 S] : "Q|rule_eoi!" {
+    #[kani::unwind(5)] fn c03_rule_eoi() [T0 S] : "Q|rule_eoi!" {
         abs3z::<rules::EOI<'_, 1>, REoiRaw>(FREE, 0) }
 }
